@@ -1,5 +1,6 @@
 pub mod ast;
 pub mod driver;
+pub mod faults;
 pub mod gen;
 pub mod keys;
 pub mod known;
@@ -7,6 +8,7 @@ pub mod libeval;
 pub mod refchain;
 pub mod refdl;
 pub mod rng;
+pub mod sweep;
 pub mod versions;
 pub mod wire;
 pub mod world;
@@ -78,7 +80,7 @@ fn check(property: &str, tier: &str, seed: u64, threads: usize, runs: Option<usi
         verif_dir: verif_dir.to_string(),
     };
     match property {
-        "C02" | "C03" | "C04" | "C07" | "C08" | "C12" | "C15" | "C16" => {
+        "C01" | "C02" | "C03" | "C04" | "C07" | "C08" | "C12" | "C15" | "C16" => {
             let e = worldengine::WorldEngine::new(property);
             driver::run_check(&e, &mk(3000, 200_000)).exit_code
         }
